@@ -197,6 +197,15 @@ def _flip_digest(imp, rng):
     return imp[:1] + _flip(imp[1:], rng)
 
 
+def _other_alg_same_len(imp, rng):
+    """the same digest octets under another algorithm id of the same digest length (SHA2-256 -> SHA3-256 / SM3, SHA-1 -> RIPEMD-160, ...): a
+    different imprint although not one digest octet differs"""
+    cands = [a for a, (_, ln) in R.ALG.items() if ln == len(imp) - 1 and a != imp[0]]
+    if not cands:
+        return None
+    return bytes([rng.choice(cands)]) + imp[1:]
+
+
 def mutants(s, rng):
     """Yield (name, mutated Sig deep-rebuilt) for one honest signature. Each mutator changes ONE thing; the expected
     verdict is computed by the reference evaluator on the re-parsed bytes, not assumed here."""
@@ -220,6 +229,13 @@ def mutants(s, rng):
         if k == 0 and c.rfc is None:
             return False   # changing the document hash alone keeps the signature consistent
     m('chain%d-input-hash' % k, set_input)
+
+    def set_input_alg(c):
+        nh = _other_alg_same_len(c.chains[k].input_hash, rng)
+        if nh is None or (k == 0 and c.rfc is None):
+            return False
+        c.chains[k].input_hash = nh
+    m('chain%d-input-hash-algorithm-id' % k, set_input_alg)
 
     def sib(c):
         ch = c.chains[k]
@@ -430,7 +446,22 @@ def mutants(s, rng):
             t, h = c.pub_tuple
             c.pub = R.pub_record(t + rng.choice([1, -1, 86400]), h)
         m('pub-time', pub_time)
+        def pub_hash_alg(c):
+            t, h = c.pub_tuple
+            nh = _other_alg_same_len(h, rng)
+            if nh is None:
+                return False
+            c.pub = R.pub_record(t, nh)
+        m('pub-hash-algorithm-id', pub_hash_alg)
     if s.calauth is not None:
+        def auth_hash_alg(c):
+            t, h = c.calauth_tuple
+            nh = _other_alg_same_len(h, rng)
+            if nh is None:
+                return False
+            c.calauth = R.cal_auth_record(t, nh)
+        m('auth-hash-algorithm-id', auth_hash_alg)
+
         def auth_hash(c):
             t, h = c.calauth_tuple
             c.calauth = R.cal_auth_record(t, _flip_digest(h, rng))
